@@ -123,6 +123,7 @@ void run_c19(sim::RunCtx& ctx) {
         common::plan_tags_and_shape(ctx, p); ctx.shape ^= 2; ctx.sample = "write: " + p.describe();
     } else {
         validfile::Opts vo; vo.small = true;
+        if (sim::draw(12) == 11) vo.wide_footer = true;      // parsed metadata beyond one arena block: allocation sites inside the footer parser
         mode = (int)sim::draw(3);
         if (!validfile::make(vf, path, vo)) { ctx.refusal = true; return; }
         validfile::finish(vf, ctx); ctx.shape ^= (uint64_t)kind * 7 + (uint64_t)mode;
@@ -152,10 +153,23 @@ void run_c19(sim::RunCtx& ctx) {
     std::vector<int64_t> sites;
     // every request when K <= 800; beyond that the first and last 200 and an even sample of ~400 in the middle (keeps one scenario
     // below a few seconds; the evidence counts how many scenarios were enumerated completely)
+    // a wide-footer scenario is about the allocation sites while the footer is parsed - they come first; each of its runs re-reads
+    // several hundred chunks, so it gets the first 160 sites, the last 40 and a thin sample in between
+    const bool wide = vf.table.cols.size() >= 60;
+    if (wide && !multi && K > 240) {
+        int64_t stepw = (K - 200) / 40 + 1;
+        for (int64_t k = 0; k < K; k++) if (k < 160 || k >= K - 40 || (k - 160) % stepw == 0) sites.push_back(k);
+        for (int64_t j = 0; j < NF; j++) sites.push_back(SITE_FOPEN + j);
+        if (vf.codec == 6) sites.push_back(SITE_DCTX);
+        SIM_COUNT("probe.wide_footer_scenario");
+    }
     bool complete = K <= 800;
+    if (!sites.empty()) { /* wide scenario: sites chosen above */ } else
+    {
     if (complete) SIM_COUNT("probe.scenario_enumerated_completely"); else SIM_COUNT("probe.scenario_sampled_beyond_800_sites");
     if (multi) sites.push_back(-7); else { int64_t step = complete ? 1 : (K - 400) / 400 + 1;
         for (int64_t k = 0; k < K; k++) if (complete || k < 200 || k >= K - 200 || (k - 200) % step == 0) sites.push_back(k); for (int64_t j = 0; j < NF; j++) sites.push_back(SITE_FOPEN + j); if (vf.codec == 6 || p.codec == 6) sites.push_back(SITE_DCTX); }
+    }
     for (int64_t site : sites) {
         if (ctx.focus >= 0 && !(ctx.focus == kind && ctx.focus2 == site)) continue;
         sim::set_focus(kind, site);
@@ -188,7 +202,7 @@ namespace sim {
 void register_c19() {
     Property p;
     p.id = "C19"; p.level = "fault_enumeration";
-    p.rule = "per seeded scenario (schema build with capacity growth where a failed add is skipped and the caller carries on adding; write of a small multi-type nullable table with a seeded history per codec, path or FILE*; open + metadata + whole-chunk reads + skip + statistics in fread/mmap/buffer on a peer- or carquet-written file; batch read in each transport) a fault-free dry run counts the K tracked allocation requests (carquet, zlib and zstd requests made inside API calls, numbered by the allocator ledger), then request k fails for EVERY k in 0..K-1 (for K > 800: the first and last 200 and an even sample of about 400 in between), plus every fopen returning NULL and ZSTD_createDCtx returning NULL; thorough tier adds seeded multi-failure runs (each request fails with probability p); oracle per fault point: no sanitizer report, an error is reported by some call or else the effect equals the fault-free run (identical file bytes / identical values), data delivered before an error is a correct prefix, a column reader that is read on after a failed call delivers the continuation of the sequence without a hole, a batch reader may be asked for the next batch again after an error, every handle can still be closed/freed/aborted, a writer that could not be created leaves no file, skip never answers a failure with 0 while rows are left, ledger empty; after the first error the writer is aborted (odd k) or closed (even k); one evaluation = one fault point";
+    p.rule = "per seeded scenario (schema build with capacity growth where a failed add is skipped and the caller carries on adding; write of a small multi-type nullable table with a seeded history per codec, path or FILE*; open + metadata + whole-chunk reads + skip + statistics in fread/mmap/buffer on a peer- or carquet-written file, 1 in 12 with 60-100 columns so that the parsed footer needs further arena blocks; batch read in each transport) a fault-free dry run counts the K tracked allocation requests (carquet, zlib and zstd requests made inside API calls, numbered by the allocator ledger), then request k fails for EVERY k in 0..K-1 (for K > 800: the first and last 200 and an even sample of about 400 in between), plus every fopen returning NULL and ZSTD_createDCtx returning NULL; thorough tier adds seeded multi-failure runs (each request fails with probability p); oracle per fault point: no sanitizer report, an error is reported by some call or else the effect equals the fault-free run (identical file bytes / identical values), data delivered before an error is a correct prefix, a column reader that is read on after a failed call delivers the continuation of the sequence without a hole, a batch reader may be asked for the next batch again after an error, every handle can still be closed/freed/aborted, a writer that could not be created leaves no file, skip never answers a failure with 0 while rows are left, ledger empty; after the first error the writer is aborted (odd k) or closed (even k); one evaluation = one fault point";
     p.quick_runs = 4000; p.thorough_runs = 200000;
     p.run = run_c19; p.recheck = 128;
     p.assumptions = {"allocations made by a per-thread ZSTD decompression context (process lifetime) are not numbered fault sites; its creation is (ZSTD_createDCtx -> NULL)",
